@@ -276,10 +276,11 @@ func parseStackPCs(crash string) ([]uintptr, error) {
 			// different mappings of the text section.
 			pc, err := getPC(line)
 			if err != nil {
-				if strings.Contains(line, " pc=") && strings.Contains(line, " sp=") && strings.Contains(line, " fp=") {
-					// Not an inlined frame (those have no sp=, fp= and pc=
-					// fields; " pc=" alone may be part of the file name):
-					// dropping the frame would silently change the name.
+				if !endsWithLineNumber(line) {
+					// Not an inlined frame: those end with FILE:LINE and have
+					// no further fields (the file name itself may contain
+					// " pc="). Dropping any other frame would silently
+					// change the name.
 					return nil, fmt.Errorf("error extracting pc: %v", err)
 				}
 				// Inlined frame, perhaps; skip it.
@@ -341,6 +342,16 @@ func parseStackPCs(crash string) ([]uintptr, error) {
 		}
 	}
 	return pcs, nil
+}
+
+// endsWithLineNumber reports whether the line ends in ":" followed by
+// decimal digits, as the location line of an inlined frame does.
+func endsWithLineNumber(line string) bool {
+	i := len(line)
+	for i > 0 && '0' <= line[i-1] && line[i-1] <= '9' {
+		i--
+	}
+	return i < len(line) && i > 0 && line[i-1] == ':'
 }
 
 func min(x, y int) int {
